@@ -495,3 +495,46 @@ func init() {
 	register("both", &h.Scenario{Name: "C17-fullstack-router-rejected-frames-between-telegrams", Prop: "C17", P: 0, F: 0, D: -1, Run: c17FullStack(true), Check: c17Oracle("C17", 3, "router.go:", false)})
 	register("both", &h.Scenario{Name: "C17-fullstack-tcp-tunnel-rejected-frames-between-telegrams", Prop: "C17", P: 0, F: 0, D: -1, Run: c17FullStack(false), Check: c17Oracle("C17", 3, "tunnel.go:", false)})
 }
+
+// c17Identical: neighbouring telegrams may be identical in every field (a sensor that sends the same
+// value twice, two writes of the same value): each accepted telegram is handed over, identical or
+// not. The environment chooses for every telegram after the first whether it repeats its
+// predecessor or is the next one.
+func c17Identical(router bool) func() {
+	return func() {
+		const n = 4
+		sock := fakesock.New("udp")
+		var recv func() (interface{}, bool)
+		var closeFn func()
+		if router {
+			r, _ := knx.NewRouterOnSocket(sock, knx.RouterConfig{RetainCount: 4})
+			recv, closeFn = func() (interface{}, bool) { m, ok := r.Inbound().Recv2(); return m, ok }, r.Close
+		} else {
+			NewGateway(sock, 7)
+			t, err := knx.NewTunnelOnSocket(sock, knxnet.TunnelLayerData, TCfg(100, 350, 100000))
+			if err != nil {
+				mc.Log(Note("connect failed: " + err.Error()))
+				return
+			}
+			recv, closeFn = func() (interface{}, bool) { m, ok := t.Inbound().Recv2(); return m, ok }, t.Close
+		}
+		id := 0
+		for i := 0; i < n; i++ {
+			if i > 0 && mc.Choose(2, mc.Free) == 1 {
+				id++
+			}
+			if router {
+				sock.Deliver(&knxnet.RoutingInd{Payload: Msg(id)})
+			} else {
+				sock.Deliver(&knxnet.TunnelReq{Channel: 7, SeqNumber: uint8(i), Payload: Msg(id)})
+			}
+		}
+		c17Consumer(n, recv, "identical")
+		closeFn()
+	}
+}
+
+func init() {
+	register("both", &h.Scenario{Name: "C17-router-burst4-identical-neighbours", Prop: "C17", P: 1, F: 0, D: 1, Run: c17Identical(true), Check: c17Oracle("C17", 4, "router.go:", false)})
+	register("both", &h.Scenario{Name: "C17-tunnel-burst4-identical-neighbours", Prop: "C17", P: 1, F: 0, D: 1, Run: c17Identical(false), Check: c17Oracle("C17", 4, "tunnel.go:", false)})
+}
